@@ -79,11 +79,23 @@ func buildExpression(data yaml.Node, path []string) (expressions.Expression, err
 	if data.Type() != yaml.TypeIDString {
 		return nil, fmt.Errorf("%s found on non-string node at %s", data.Tag(), strings.Join(path, " -> "))
 	}
-	expr, err := expressions.New(data.Value())
+	expr, err := compileExpression(data.Value())
 	if err != nil {
 		return nil, fmt.Errorf("failed to compile expression at %s (%w)", strings.Join(path, " -> "), err)
 	}
 	return expr, nil
+}
+
+// compileExpression compiles an expression. The expression parser panics on some malformed
+// inputs (for example an operator without right-hand side); that is reported as an error.
+func compileExpression(expression string) (expr expressions.Expression, err error) {
+	defer func() {
+		if r := recover(); r != nil {
+			expr = nil
+			err = fmt.Errorf("malformed expression %q (%v)", expression, r)
+		}
+	}()
+	return expressions.New(expression)
 }
 
 func buildOneOfExpressions(data yaml.Node, path []string) (any, error) {
@@ -149,7 +161,7 @@ func buildResultOrDisabledExpression(data yaml.Node, path []string) (*infer.OneO
 	// Index 0 is the entire capture, index 1 is the step path, and index 2 is the present case
 	stepPath := capturedParts[1]
 	disabledPath := stepPath + ".disabled.output"
-	disabledExpr, err := expressions.New(disabledPath)
+	disabledExpr, err := compileExpression(disabledPath)
 	if err != nil {
 		return nil, fmt.Errorf("failed to compile auto-generated disable case for %s expression at %s; is %q a valid path? (%w)", OrDisabledTag, strings.Join(path, " -> "), disabledPath, err)
 	}
